@@ -5,7 +5,7 @@ name=$1; shift
 cd /repo && git diff --quiet || { echo "/repo has local changes"; exit 2; }
 git -C /repo apply /verif/seeded/$name/patch.diff || { echo "patch does not apply"; exit 2; }
 for p in "$@"; do
-  out=$(cd /verif && VERIF_SEED=${VERIF_SEED:-1} ./check $p --tier quick 2>&1); rc=$?
+  out=$(cd /verif && VERIF_EVIDENCE_DIR=/verif/.cache/evidence-seeded VERIF_SEED=${VERIF_SEED:-1} ./check $p --tier quick 2>&1); rc=$?
   v=$(echo "$out" | grep -c "^VIOLATION property=$p")
   if [ $rc -eq 1 ] && [ $v -ge 1 ]; then echo "$name $p DETECTED ($v) :: $(echo "$out" | grep -A1 "^VIOLATION" | sed -n 2p | cut -c1-160)"; else echo "$name $p MISSED rc=$rc :: $(echo "$out" | tail -1 | cut -c1-200)"; fi
 done
